@@ -12,6 +12,10 @@ PRELUDE = r'''
 /// the reviver footer (C12's domain); touches only that field
 #[verifier::external_body]
 fn note_custom_translation(seen: &mut BTreeMap<String, BTreeSet<String>>, mapped: &String) { unimplemented!() }
+/// outlined (T3): `self.types_for_custom_json_translation.entry("Date".to_owned()).or_default();` - registers Date for the reviver footer
+/// (C12's domain); touches only that field
+#[verifier::external_body]
+fn note_date_translation(seen: &mut BTreeMap<String, BTreeSet<String>>) { unimplemented!() }
 /// outlined (T3): std::iter::repeat(&s).take(n).join_with(sep) - n copies of s separated by sep (itertools)
 #[verifier::external_body]
 fn repeat_join(s: &String, n: usize, sep: &str) -> (r: String)
@@ -25,6 +29,8 @@ SPECIAL = F.SPECIAL_HEAD + [
         'note_custom_translation(&mut self.types_for_custom_json_translation, mapped);', tag='T3',
         note='reviver bookkeeping: writes only types_for_custom_json_translation'),
     rep(A.span('std::iter::repeat(&formatted_type)', '.join_with('), 'repeat_join(&formatted_type, *len, ', tag='T3'),
+    rep(A.span('self.types_for_custom_json_translation .entry("Date".to_owned())', '.or_default();'),
+        'note_date_translation(&mut self.types_for_custom_json_translation);', tag='T3', note='reviver bookkeeping: writes only types_for_custom_json_translation'),
 ]
 
 UNIT = F.make_unit('fmt_ts', 'TypeScript', TS, 'TypeScript',
